@@ -25,12 +25,13 @@ CHECKS = {
     "C03": ("exploration", "6 C03",
             "Seeded search over byzantine agents (sorted successor overridden by explicit deviations: same/smaller OID, cycles, "
             "leaving and re-entering the subtree, endOfMibView anywhere) x walk/multiwalk/bulkwalk/table/bulktable x strict/lenient; "
-            "non-termination is a deterministic verdict at a fixed request number (agent request cap), no wall clock involved.",
+            "optionally after the same operation has been run once on the client; non-termination is a deterministic verdict at a "
+            "fixed request number (agent request cap), no wall clock involved.",
             "deterministic simulation: real client vs. scripted adversarial agent, request-cap liveness verdict, request-log oracle"),
     "C04": ("exploration", "6 C04",
             "Seeded search over databases, operation sequences, OID lists and protocol levels, with one agent count fault "
             "(added / dropped binding, over-long or short GETBULK) per run; oracle = the agent's request log (what was asked) "
-            "and the response it actually sent (what must come back, in order).",
+            "and the response it actually sent (what must come back, in order); repeated calls hand the same argument objects to the client.",
             "deterministic simulation: operation sequences vs. reference agent with injected binding-count faults, log oracle"),
     "C05": ("exploration", "6 C05",
             "Invariant on every datagram reaching the recording sender seam: an independent strict RFC 1157/3416/3412 decoder "
@@ -56,15 +57,18 @@ CHECKS = {
             "deterministic simulation: scripted error-status agent, full matrix enumeration, RFC table oracle"),
     "C09": ("fault_enumeration", "6 C09",
             "On-path attacker as a network rewrite fault: for each scenario the exchange is re-run from the identical state "
-            "once per transformation of the targeted authentic response - every single-bit flip (complete enumeration) and 24 "
-            "structural forgeries carrying different data (downgrades, digest variants, wrong keys/users/engines, Reports). "
-            "Outcome must be an exception or exactly the authentic result; Reports only an exception.",
+            "once per transformation of the targeted authentic response - every single-bit flip (complete enumeration) and 40 "
+            "structural forgeries carrying different data (downgrades, digest variants incl. a sweep of 1-octet digests, wrong "
+            "keys/users/engines, foreign msgIDs, other PDU types, Reports with empty bindings / error status / clock ahead). "
+            "Outcome must be an exception or exactly the authentic result; Reports only an exception; the NEXT request on the "
+            "same client must be unaffected by the refused forgery.",
             "deterministic simulation: exhaustive per-bit and structural rewrite faults on authentic responses, exact twin runs"),
     "C10": ("exploration", "6 C10",
             "Seeded sweep of passwords (every length 1..300), engine ids, operations and payload lengths (message / scoped-PDU / "
             "PDU content lengths through 100..300, measured per layer) against an independent RFC 3412/3414 agent whose verdict "
             "on every request (flags, parameters, digest over the datagram as sent, decryption, usmStats) and whose authentic "
-            "minimal-BER responses are the oracle.",
+            "minimal-BER responses are the oracle; pass-phrases that look like hex keys/numbers, engine ids with zero runs, "
+            "an earlier user with the same pass-phrases and the other hash on the same engine.",
             "deterministic simulation: independent USM agent verdicts over seeded password/engine/length sweeps"),
     "C11": ("exploration", "6 C11",
             "Harness privacy plug-ins (a length-preserving and a length-changing keyed stream transform) are loaded by puresnmp's "
@@ -74,8 +78,9 @@ CHECKS = {
     "C12": ("exploration", "6 C12",
             "Seeded histories on one client interleaving requests with virtual time passing (seconds to 30 days), agent reboots "
             "(crash/restart of the only durable state, snmpEngineBoots), clock steps and slow answers, at all security levels, "
-            "plus faulty discovery replies; the reference agent's time-window verdict over the history is the oracle, with "
-            "bounded recovery after a discontinuity instead of impossible demands.",
+            "agent clock drift, replayed old responses, credential-family round trips, a first discovery exchange that fails "
+            "(lost / refused reply) followed by rediscovery; the reference agent's time-window verdict over the history is "
+            "the oracle, with bounded recovery after a discontinuity instead of impossible demands.",
             "deterministic simulation: virtual time (years per run), agent reboot/clock-step faults, history oracle with bounded recovery"),
     "C13": ("fault_enumeration", "6 C13",
             "All 2 800 sequences of per-attempt outcomes {reply in time (possibly zero-length), no reply, late reply, two replies, "
@@ -83,7 +88,8 @@ CHECKS = {
             "the shipped send_udp / SNMPClientProtocol on the simulated transport under virtual time (quick: x 4 timeouts; "
             "thorough: x 8 latency seeds too; directly and through Client.get; wall clock jumping in half of the runs); oracle: "
             "transmission count, payload identity, exact retry spacing and return/Timeout instants in virtual time, every socket "
-            "closed afterwards.",
+            "closed afterwards; also IPv6 peers, slow socket setup, caller cancellation, another open event loop, a second "
+            "call in flight at the same time.",
             "deterministic simulation: exhaustive per-attempt fault sequences on a simulated datagram transport, virtual-time arithmetic oracle"),
     "C14": ("exploration", "6 C14",
             "2-6 operations (twelve kinds, overlapping walks/tables) started together on one shared client or on 2-3 clients on "
@@ -97,7 +103,8 @@ CHECKS = {
     "C15": ("exploration", "6 C15",
             "All eleven wrapper operations over databases holding every value type; the wrapper call and the raw call see "
             "byte-identical exchanges (exact twin through determinism); oracle: deep type walk (no x690 type anywhere, keys "
-            "included) and equality with an independent pythonisation of the agent's typed values. No fault dimension.",
+            "included) and equality with an independent pythonisation of the agent's typed values; one long-lived wrapper per "
+            "client, optionally after fetching another table; stalling / reordering agents.",
             "deterministic simulation: wrapper vs. raw twin run against the reference agent, independent pythonisation oracle"),
     "C16": ("exploration", "6 C16",
             "Seeded conceptual tables (columns, sparsity, 0-12 rows, 1-4 index components incl. mixed arity, neighbours before/"
@@ -108,7 +115,8 @@ CHECKS = {
             "Seeded nested histories (depth <= 4) of configure / reconfigure blocks left normally, by an exception or by a failing "
             "request / requests / requests into a partition / unknown settings over timeout, retries, credentials of the same and "
             "of another family, context; snapshot-stack model checked after every step against client.config, against what the "
-            "recording sender seam saw and against the datagram decoded by the independent decoder; partition: Timeout after "
+            "recording sender seam saw and against the datagram decoded by the independent decoder; the model tracks which "
+            "message-processing model each snapshot owns (no rediscovery after leaving a block); partition: Timeout after "
             "exactly retries x timeout virtual seconds.",
             "deterministic simulation: operation histories vs. snapshot-stack model, sender-seam and wire oracle, partition fault under virtual time"),
     "C19": ("exploration", "6 C19",
@@ -122,7 +130,8 @@ CHECKS = {
             "For each base message (v1/v2c/v3 responses at all levels incl. mid-walk GETNEXT/GETBULK answers, discovery replies, "
             "USM reports, a trap) produced in simulation: every single-bit flip, every truncation, every octet value at every "
             "TLV header position (16-value dictionary in quick), seeded pairs/triples, indefinite lengths, random strings up to "
-            "65507 octets, deep nesting, well-formed oversized and degenerate (empty) messages, applied to one datagram or to "
+            "65507 octets, deep nesting, well-formed oversized and degenerate (empty) messages, long-lived clients/listeners "
+            "(300 exchanges, retained memory must not grow), applied to one datagram or to "
             "every later datagram of the operation, are delivered by the rewrite fault (before authentication on the wire, after authentication by the agent "
             "mutating the scoped PDU before encrypting/signing); oracle: counted work (function entries, calls, loop jumps via "
             "sys.monitoring) <= A + 200 x len, traced memory <= 16 MiB + 64 x len, outcome a result or an exception, and the "
